@@ -203,6 +203,23 @@ pub fn oracle(c: &Case, obs: &mut Obs) -> Check {
             }
             Ok(())
         }
+        "escape_array" => {
+            // the input is an array of the string's characters: escaping must still leave nothing raw
+            let parts: Vec<RV> = s.chars().map(|ch| st(&ch.to_string())).collect();
+            let joined: String = s.clone();
+            for f in ["escape", "escape_once"] {
+                let got = lq::apply(Conf::Stdlib, f, &RV::Arr(parts.clone()), &[]);
+                let rendered = match &got {
+                    Ok(Ok(v)) => v.render(),
+                    Ok(Err(_)) => continue, // rejecting a non-string input is fine
+                    Err(p) => return Err(Failure::new(format!("{f}: panics: {}", p.site()), p.what.clone())),
+                };
+                if !safe(&rendered) {
+                    return Err(Failure::new(format!("{f}: output for an array input contains an unescaped special character"), format!("input chars of {joined:?} output={rendered:?}")));
+                }
+            }
+            Ok(())
+        }
         "url" => {
             let o = get_str("url_encode", s)?;
             let mut it = o.chars().peekable();
@@ -265,6 +282,8 @@ pub fn run(ctx: &Ctx) {
         let (n, f) = space(check, &ESC2, e2);
         ctx.exhaustive(&format!("{check}_alpha2"), n, f, oracle);
     }
+    let (n, f) = space("escape_array", &ESC, 3);
+    ctx.exhaustive("escape_array_input", n, f, oracle);
     let (n, f) = space("url", &URL, u);
     ctx.exhaustive("url_roundtrip", n, f, oracle);
     let (n, f) = space("url_decode", &DEC, d);
